@@ -3,6 +3,7 @@ package main
 import (
 	"bufio"
 	"fmt"
+	"hop.computer/hop/cyclist"
 	"strconv"
 	"strings"
 	"time"
@@ -32,7 +33,91 @@ import (
 //	probe                            fresh honest handshake + data on every established session -> hs=1 est=k/k
 //
 // A panic in an endpoint goroutine kills the harness process; the runner records `<crash>`.
-func main() { Main(map[string]*Suite{"C10": {Gen: gen, Run: run}}) }
+func main() {
+	Main(map[string]*Suite{"C10": {Gen: gen, Run: run}, "C10vec": {Gen: genVec, Run: runVec}})
+}
+
+// ---------------------------------------------------------------- suite C10vec
+//
+// `vec <hex>`: the real transport.DecryptCertificates (and through it readVector) on chosen decrypted
+// bytes - two Cyclist objects in the same state, one encrypts the bytes, the other is handed to
+// DecryptCertificates - compared with the Go-slice transcription Model/Dgram.lean that
+// C10_vectors_no_panic speaks about.  -> ok <leafLen> <intermediateLen> | err | panic
+
+func genVec(g *GenCtx) {
+	emit := func(b []byte) { g.Op("vec %s", HexOrDash(b)) }
+	be := func(n int) []byte { return []byte{byte(n >> 8), byte(n)} }
+	// every total length up to 14 with every pair of announced lengths around what fits
+	for total := 0; total <= 14; total++ {
+		for l1 := 0; l1 <= total+2; l1++ {
+			for l2 := 0; l2 <= total+2; l2++ {
+				b := make([]byte, total)
+				for i := range b {
+					b[i] = byte(0xa0 + i)
+				}
+				copy(b, be(l1))
+				if 2+l1+2 <= total {
+					copy(b[2+l1:], be(l2))
+				}
+				emit(b)
+			}
+		}
+	}
+	n := 3000
+	if g.Thorough() {
+		n = 200000 / g.Parts
+	}
+	for i := 0; i < n; i++ {
+		total := Pick(g.R, []int{0, 1, 2, 3, 4, 5, 64, 65, 200, 1000, 4000}) + g.R.Intn(4)
+		b := g.R.Bytes(total)
+		if total >= 2 {
+			// first length: exact split points and their neighbours, the remaining length +-2, huge
+			l1 := Pick(g.R, []int{0, 1, total - 4, total - 3, total - 2, total - 1, total, total + 1, g.R.Intn(total + 1), 65535})
+			if l1 < 0 {
+				l1 = 0
+			}
+			copy(b, be(l1))
+			if 2+l1+2 <= total {
+				rest := total - 2 - l1 - 2
+				l2 := Pick(g.R, []int{rest, rest, rest - 1, rest + 1, rest + 2, 0, 65535, g.R.Intn(rest + 2)})
+				if l2 < 0 {
+					l2 = 0
+				}
+				copy(b[2+l1:], be(l2))
+			}
+		}
+		emit(b)
+	}
+	g.Op("vec zz")
+	g.Op("vec")
+}
+
+func runVec(in *bufio.Scanner, out *bufio.Writer) {
+	for in.Scan() {
+		f := strings.Fields(in.Text())
+		res := "bad-op"
+		if len(f) == 2 && f[0] == "vec" {
+			if pt, ok := Unhex(f[1]); ok {
+				res = Guard(func() string {
+					var enc, dec cyclist.Cyclist
+					key := []byte("C10vec: any key, the same on both sides")
+					enc.Initialize(key, nil, nil)
+					dec.Initialize(key, nil, nil)
+					ct := make([]byte, len(pt))
+					enc.Encrypt(ct, pt)
+					leaf, inter, err := transport.DecryptCertificates(&dec, ct)
+					if err != nil {
+						return "err"
+					}
+					return fmt.Sprintf("ok %d %d", len(leaf), len(inter))
+				})
+			}
+		}
+		out.WriteString(res)
+		out.WriteByte('\n')
+		out.Flush()
+	}
+}
 
 var xxMsgs = []string{"c2s0", "c2s1", "c2s2"}
 
